@@ -125,10 +125,12 @@ impl Out {
         let own = v["op"] == "amplify";
         // one segment per decoder run of the plan: a rejection in one does not hide the others
         let dec = v.get("dec").and_then(|d| d.as_str()).unwrap_or("").to_string();
-        if v["e"] == "pb" && !own && dec != self.last_dec {
+        if v["e"] == "pb" && !own && dec != self.last_dec && v.get("src").is_none() {
             self.lines.push(jline(json!({"e": "reset", "i": "plan", "dec": dec})));
         }
-        self.last_dec = dec;
+        if v.get("src").is_none() {
+            self.last_dec = dec;
+        }
         if own {
             self.lines.push(jline(json!({"e": "reset", "i": "amplify"})));
         }
@@ -247,7 +249,7 @@ fn run_ld(toks: &[String], chunk: &str, rng: &mut StdRng, out: &mut Out) {
         })
     });
     out.push(json!({"e": "pb", "dec": "mss_message", "op": "noise", "out": r.unwrap_or("panic"), "alloc": alloc,
-                    "limit": dc::MSS_MAX_FRAME_SIZE, "len": data.len()}));
+                    "limit": dc::MSS_MAX_FRAME_SIZE, "len": data.len(), "src": "ld"}));
 }
 
 impl futures::AsyncWrite for Chunked {
